@@ -491,8 +491,8 @@ def sign_patterns(name, n, c2):
 
 def build_work(tier, engines, rs):
     """quick: every (mesh, plane) pair once, in one of the three presentations of the seed (rotating), one
-    seeded origin / normal scaling / api per pair; thorough: every presentation, and three repetitions with
-    other origins on the same plane, other normal scalings and the other api."""
+    seeded origin / normal scaling / api per pair; thorough: every presentation, each twice (once for the
+    48-face seed) with other origins on the same plane, other normal scalings and the other api."""
     work, wid = [], 0
     patterns = set()
     npairs = 0
@@ -526,7 +526,8 @@ def build_work(tier, engines, rs):
                 eng = []
                 if want_slice:
                     nocap[base + str(list(n))] = nocap.get(base + str(list(n)), 0) + 1
-            reps = [(r, j) for r in range(3) for j in range(3)] if tier == "thorough" else [((k + bi) % 3, 0)]
+            nrep = 1 if base == "uhole" else 2          # the 48-face seed is the most expensive one to validate
+            reps = [(r, j) for r in range(3) for j in range(nrep)] if tier == "thorough" else [((k + bi) % 3, 0)]
             for r, j in reps:
                 want_sub = ((k + j) % 3) == 0
                 work.append(("plane", "%s/r%d" % (base, r), wid, n, c2, eng, want_slice, want_sub))
@@ -534,7 +535,7 @@ def build_work(tier, engines, rs):
             # capping a non-convex solid through a vertex pinches the section polygon and the outcome then
             # depends on rounding noise: more origins on the same plane, normal scalings and engines
             if eng and base in NONCONVEX and (0, 0, 0) in sign_patterns_v(base + "/r0", n, c2):
-                for q in range(40 if tier == "thorough" else 2):
+                for q in range((15 if base == "uhole" else 40) if tier == "thorough" else 2):
                     work.append(("capsweep", "%s/r%d" % (base, (k + q) % 3), wid, n, c2, eng[(k + q) % len(eng)]))
                     wid += 1
         # plane pairs for multi-plane slicing: normals from {-1,0,1}^3
